@@ -3,6 +3,8 @@ CONSTANTS
   Classes <- Classes4
   Outs <- OutsC13
   Durs = {0}
+  CDurs <- ZeroDur
+  EDurs <- ZeroDur
   Rets <- RetsOne
   Advs <- AdvsC13
   Decs <- DecsAll
